@@ -2,6 +2,7 @@ package main
 
 import (
 	"bytes"
+	"iter"
 	"math/rand"
 	"strconv"
 
@@ -27,11 +28,28 @@ func fqProject(f *fastq.Fastq) fqItem {
 var fqErr = fqItem{"err", []int{}, []int{}, []int{}}
 
 // fqRead: the item sequence of the real Reader (records and errors, in order; capped).
+// fqPairedWith: when set, fqRead advances a second reader over this text in lockstep
+var fqPairedWith []byte
+
 func fqRead(data []byte) (items []fqItem, panicked bool) {
 	items = []fqItem{}
 	var kept []*fastq.Fastq // nil = error item; records are projected after the iteration (they must stay what they were)
 	panicked, _ = catch(func() {
-		for f, err := range fastq.Reader(bytes.NewReader(data)) {
+		seq := fastq.Reader(bytes.NewReader(data))
+		if fqPairedWith != nil { // consumed in lockstep with a reader over another text (paired-end files are read like this)
+			next, stop := iter.Pull2(fastq.Reader(bytes.NewReader(fqPairedWith)))
+			defer stop()
+			inner := seq
+			seq = func(yield func(*fastq.Fastq, error) bool) {
+				for f, err := range inner {
+					next()
+					if !yield(f, err) {
+						return
+					}
+				}
+			}
+		}
+		for f, err := range seq {
 			if err != nil {
 				kept = append(kept, nil)
 			} else {
@@ -306,6 +324,10 @@ func fastqDrive(args []string) error {
 				Bytes: ints(data), Recs: want, J: j}
 			ev.Items, ev.Panic = fqRead(data)
 			tw.emit(ev)
+		}
+		fqPairedWith = nil
+		if sid%5 == 3 {
+			fqPairedWith = []byte("@mate/2\nTTTTGGGGCCCCAAAA\n+\nIIIIHHHHGGGGFFFF\n@m2/2\nAC\n+\n!!\n@m3/2\n\n+\n\n")
 		}
 		emitRead("own-writer", own, 0)
 		if long < 0 {
